@@ -1435,6 +1435,15 @@ func (t *Tr) callSiteClauses(name string, ord int, cc *ssa.CallCommon, pos token
 	if t.ct == nil || !t.verify {
 		return
 	}
+	// the clauses of one call site are all checked against the state before the call and only then assumed: a clause
+	// assumed at once would mask an identical clause that another property states for the same call (its path
+	// condition would become unsatisfiable as soon as the first is violated)
+	var checked []Term
+	defer func() {
+		for _, g := range checked {
+			t.c.assert(g)
+		}
+	}()
 	for _, cl := range t.ct.Calls {
 		f := strings.Fields(cl.Text)
 		if len(f) < 3 || f[1] != "requires" {
@@ -1474,7 +1483,7 @@ func (t *Tr) callSiteClauses(name string, ord int, cc *ssa.CallCommon, pos token
 		}
 		t.addObl("call", sfx, pos, t.reach[t.curBlk], g, "at call of "+name+": "+txt)
 		// once checked, the clause is available to later obligations (it doubles as a proof hint)
-		t.c.assert(implies(t.reach[t.curBlk], g))
+		checked = append(checked, implies(t.reach[t.curBlk], g))
 	}
 }
 
